@@ -1,6 +1,7 @@
 package main
 
 import (
+	"bufio"
 	"bytes"
 	"encoding/binary"
 	"encoding/hex"
@@ -225,6 +226,10 @@ func doEncodeOwned(out netty.OutboundHandler, payload []byte, carrier int, owned
 		msg = bytes.NewReader(append([]byte(nil), payload...))
 	case 4:
 		msg = strings.NewReader(string(payload))
+	case 6: // a plain io.Reader: no Len(), no WriteTo
+		msg = io.LimitReader(bytes.NewReader(append([]byte(nil), payload...)), int64(len(payload)))
+	case 7:
+		msg = bufio.NewReaderSize(bytes.NewReader(append([]byte(nil), payload...)), 16)
 	default:
 		h := len(payload) / 2
 		msg = [][]byte{append([]byte(nil), payload[:h]...), append([]byte(nil), payload[h:]...)}
@@ -531,7 +536,7 @@ func runC04(prop string, seed int64, count int) {
 				origs = append(origs, append([]byte(nil), p...))
 				continue
 			}
-			carrier := rng.Intn(6)
+			carrier := rng.Intn(8)
 			enc, st := doEncode(out, p, carrier)
 			if st == "ok" {
 				emit("%s enc %s %s %d %s", prop, s, hexOrDash(p), carrier, hexOrDash(enc))
